@@ -106,6 +106,12 @@ def run(ctx, replay=None):
     # 4. continuous mode started beyond the end of its range
     ctx.go_test("vt/c16", run="TestBeyondTree$", toolchain="go1.26", race=True, timeout=900, name="c16beyond")
 
+    # 5. the migration controller (trillian/migrillian/core/controller.go, an anchor of C16) as a user of the Fetcher:
+    #    continuous passes, submitter faults and restarts must not lose or repeat ranges.  Decided by Migrillian.tla
+    #    (PosCovered / NoGap / Complete / Mirror) on the real core.Controller; a reduced run of C20's conformance part.
+    from props import c20 as _c20
+    _c20.conformance(ctx, f=0.35)
+
 
 SPLITS = ("fewer", "equal", "multiple", "rem-lt2", "rem-ge2")
 
